@@ -15,7 +15,8 @@ TRUSTED = ["translators/opclasses.py (AST translation of the algebra classes int
            "correspondence harness harness/c14_impl.py + theories/Algebra/Corr.v (exact complex-rational evaluation of the "
            "regenerated tables inside Coq, compared at 1e-9 relative)"]
 ASSUMPTIONS = ["dtype promotion (single/double, real/complex result types) is only exercised by the search",
-               "transposes/adjoints of discrete operators and GeneralizedBlockedOperator are only exercised by the search",
+               "transposes/adjoints of discrete operators, GeneralizedBlockedOperator and the block matrix of BlockedOperator are only "
+               "exercised by the search",
                "operands of the correspondence run are stub-assembled operators with exactly known matrices; real kernels "
                "enter in the thorough search only"]
 
@@ -213,9 +214,11 @@ META = {
                   "expression and _matvec = to_dense()x, shape guards accept exactly conformable operands, real operator x "
                   "complex vector splits into real and imaginary parts; blocked pack/unpack are inverse and projection "
                   "unpacking is right iff sliced by dual dof counts (refuted with witness for the pinned recipe); every "
-                  "attribute/method name used on self or operands in the five algebra files resolves except three recorded "
-                  "ones; potential algebra: positive theorem conditional on the names resolving, and on the pinned tree no "
-                  "sum of potential operators can be built (refuted for all operands).",
+                  "attribute/method name used on self or operands in the five algebra files resolves "
+                  "(the regenerated list of unresolved names is empty); potential algebra (sums, differences, scalar multiples "
+                  "keep space/components/points and evaluate to the matrix expression, ValueError iff incompatible); "
+                  "GridFunction arithmetic (+ - neg scalar* /) over coefficient/projection representations with arbitrary "
+                  "dual spaces: ValueError iff spaces differ, coefficients = vector expression.",
     "level_note": "Trusted: Coq kernel; translators/opclasses.py; python's operator protocol as modelled by the dispatch "
                   "tables; SciPy LU behind the abstract inverse mass matrix; the harness. Not proved: dtype promotion, "
                   "discrete-operator transposes, rounding.",
